@@ -524,6 +524,59 @@ def r6(k: Kit) -> None:
     rep.floor('C20.R6', 'SOCKS input buffer stores', sites, 2)
 
 
+def r7(k: Kit) -> None:
+    """The application's per-connection verdict is obtained before use."""
+    from ..cfg import CFG
+    from .c05 import awaited_verdict
+    rep = k.rep
+    idx = k.idx
+    rep.rule('C20.R7', 'every call of an accept_handler (the per-connection '
+             'policy callback a server application returns from '
+             'server_requested / unix_server_requested, documented as '
+             '"callable or coroutine") binds the result, tests it with '
+             'inspect.isawaitable and awaits it before the verdict is read; '
+             'a refusal raises ChannelOpenError before anything is '
+             'forwarded.  Classifying the handler instead of its result '
+             'leaves callables that return an awaitable un-awaited, i.e. '
+             'truthy')
+    n = 0
+    for fi in idx.iter_funcs(['connection']):
+        for sub in ast.walk(fi.node):
+            if sub is fi.node or not isinstance(
+                    sub, (ast.FunctionDef, ast.AsyncFunctionDef)):
+                continue
+            calls = [c for c in ast.walk(sub) if isinstance(c, ast.Call) and
+                     dotted(c.func) == 'accept_handler']
+            if not calls:
+                continue
+            g = CFG(sub, idx.exc_is_subclass)
+            for c in calls:
+                n += 1
+                awaited_verdict(k, 'C20.R7', fi, g, c, 'accept_handler',
+                                f'{sub.name}: accept_handler')
+                nd = g.node_for(c)
+                st = nd.ast if nd is not None else None
+                var = st.targets[0].id if isinstance(st, ast.Assign) and \
+                    isinstance(st.targets[0], ast.Name) else None
+                # a falsy verdict raises: no normal exit on the False edge
+                okr = False
+                if var is not None:
+                    for a in g.nodes:
+                        if a.kind == 'atom' and dotted(a.ast) == var:
+                            for b, lab in g.succ[a.id]:
+                                if lab is False:
+                                    okr = g.path(b, g.exit,
+                                                 follow_exc=False) is None \
+                                        and b != g.exit
+                rep.check(okr, 'C20.R7',
+                          key(fi, f'{sub.name}: refusal raises'),
+                          'a falsy verdict never reaches a normal return',
+                          'a connection the accept handler refused is '
+                          'forwarded all the same', k.loc(fi, nd)
+                          if nd else fi.loc(fi.node))
+    rep.floor('C20.R7', 'accept_handler call sites', n, 2)
+
+
 def run(idx, rep, tier):
     k = Kit(idx, rep)
     rep.assumptions += NOT_DECIDED
@@ -533,3 +586,17 @@ def run(idx, rep, tier):
     r4(k)
     r5(k)
     r6(k)
+    r7(k)
+    # C20.R8: a forwarded stream is a channel stream: EOF is sent after all
+    # queued data and delivered after all buffered data (= C07.R2), also
+    # when the destination applies back-pressure
+    from .c07 import r2 as c07r2
+    rep.rule('C20.R8', 'channel EOF ordering (= C07.R2): CHANNEL_EOF is sent '
+             'only once the send buffer is empty, and an EOF / close received '
+             'while delivery is paused reaches the forwarder only after every '
+             'byte still buffered in the channel - a slow destination gets '
+             'the whole stream before the half-close')
+    before = len(rep.obligations)
+    c07r2(k)
+    for o in rep.obligations[before:]:
+        o.rule = 'C20.R8'
